@@ -119,6 +119,9 @@ func discharge(o *Obligation, scratch string, timeout time.Duration) {
 	if o.Status != "" {
 		return
 	}
+	if o.TimeoutOverride > 0 {
+		timeout = o.TimeoutOverride
+	}
 	q := o.buildQuery(false)
 	o.Query = q
 	file := filepath.Join(scratch, sanitize(o.Name)+".smt2")
